@@ -369,7 +369,7 @@ NAME_POOL = ["set_point", "with_gain", "_reserved", "f", "fmt", "value", "index"
              "effective_index", "extracted_bits", "set_", "with_", "r#fn", "new_", "a"]
 
 
-def vary_names(decls, every=3, upper=True, raw=True):
+def vary_names(decls, every=3, upper=True, raw=True, vis=True, hostile=True):
     """rename the fields of every `every`-th declaration (deterministic in the declaration's position): first the names of
     the generated code's own locals, each on a field of the layout kind whose accessor bodies declare that local, then the pool"""
     pool = [n for n in NAME_POOL if (upper or n.lower() == n) and (raw or not n.startswith("r#"))]
@@ -384,7 +384,18 @@ def vary_names(decls, every=3, upper=True, raw=True):
         # the spelling of a declared default (Corpus!DefForms): literal in several radixes / with a type suffix, or a named constant
         if d.get("def") and d.get("defform", "lit") == "lit":
             d["defform"] = ["lit", "const", "dec", "hexsuf", "const", "bin_", "decsuf", "const", "hexsuf_", "oct"][k % 10]
+        # arbitrary-int field types spelled through a path (the macro looks at the last segment)
+        for j, f in enumerate(d["fields"]):
+            if f["kind"] == "uarb":
+                f.setdefault("tyspell", ["", "arbitrary_int::", "::arbitrary_int::"][(k + j) % 3])
+        # restricted visibility of the struct (and its enums): still visible to the glue, which lives in a sibling module
+        if vis:
+            d.setdefault("vis", {1: "pub(crate) ", 3: "pub(super) ", 4: "pub(in crate) "}.get(k % 6, "pub "))
+        # user items next to the declaration (rustgen.hostile_items)
+        if hostile:
+            d.setdefault("hostile", k % 2 == 0)
         for j, e in enumerate(d.get("enums", [])):
+            e.setdefault("storage_path", (k + j) % 2 == 0)      # #[bitenum(::core::primitive::u8, ..)] for native widths
             e.setdefault("args_rev", (k + j) % 2 == 1)          # #[bitenum(exhaustive = .., uN)]
             if (k + j) % 3 == 0 and e["variants"]:
                 e["variants"][-1].setdefault("attrs", ["#[cfg_attr(all(), doc = \"documented through cfg_attr\")]", "#[allow(dead_code)]"])
